@@ -16,6 +16,7 @@ from ..engine import flow
 from ..engine import pattern as P
 from ..engine.facts import dotted, const, src, walk_func, str_value, enclosing_stmt, ancestors
 from .common import calls, raise_names, contains
+from . import c12  # line-split-agreement is registered for C11 there
 
 PARSERS = {"ast.PythonCode", "ast.PythonFragment", "ast.ArgumentList", "ast.FunctionDecl", "ast.FunctionArgs",
            "PythonCode", "PythonFragment", "ArgumentList", "FunctionDecl", "FunctionArgs", "pyparser.parse"}
